@@ -73,6 +73,12 @@ struct PlanModel {
 	uint8_t active; int len; TxS plan[MAXPLAN + 1]; uint8_t succ, fail; bool exists; TxS req;
 };
 enum { ST_NONE = 0, ST_SUCCESS = 1, ST_FAILURE = 2 };
+// C09 look-ahead: when the report bits the machine keeps differ from the ones the history warrants, the explorer follows the
+// machine a bounded number of default steps further with the warranted bits carried along (g_ghost_in), so that the consequence
+// the property names -- an outcome callback in a cycle that does not warrant it -- is observed rather than inferred.
+struct PlanGhost { bool valid; uint8_t succ, fail; bool exists; };
+static PlanGhost g_ghost_in = {false, 0, 0, false}, g_ghost_out = {false, 0, 0, false};
+static bool g_ghost_diverged = false;
 
 #if VX_PLANS
 inline bool task_eq(const TxS& a, const TxS& b) { return a.o == b.o && a.d == b.d && (a.set != 0) == (b.set != 0) && a.tag == b.tag; }
@@ -91,6 +97,9 @@ inline void m_plans(const Edge& e, const Parsed& P, unsigned props) {
 	if (e.terminal && e.op.k != OP_DESTROY) return;
 	PlanModel m; memset(&m, 0, sizeof m);
 	if (e.initial) { m.active = NONE8; m.req = TX_NONE; } else pm_from(e.pre, m);
+	const bool ghost = g_ghost_in.valid && !e.initial;
+	if (ghost) { m.succ = g_ghost_in.succ; m.fail = g_ghost_in.fail; m.exists = g_ghost_in.exists; }
+	g_ghost_out.valid = false; g_ghost_diverged = false;
 	const uint8_t A0 = m.active;
 	const bool cycle = e.op.k == OP_UPDATE || e.op.k == OP_REACT;
 	bool stepDone = !cycle;
@@ -202,6 +211,8 @@ inline void m_plans(const Edge& e, const Parsed& P, unsigned props) {
 	apply_pending_clears();
 	if (e.op.k == OP_EXIT || e.op.k == OP_DESTROY || (e.op.k == OP_LOAD && e.op.a == N)) { pm_clear(m); m.exists = false; m.active = NONE8; }
 	if (e.terminal) return;
+	g_ghost_out = PlanGhost{true, m.succ, m.fail, m.exists};
+	g_ghost_diverged = e.post.succ != m.succ || e.post.fail != m.fail || (e.post.exists != 0) != m.exists;
 	// ---- C08: the plan step
 	if (c08 && cycle) {
 		if (e.logger_on && nSeenFired != nF) flag(C08, "due-task-did-not-fire", e, "%d tasks were due (first %d>%d), %d fired", nF, nF ? F[0].o : -1, nF ? F[0].d : -1, nSeenFired);
@@ -211,7 +222,7 @@ inline void m_plans(const Edge& e, const Parsed& P, unsigned props) {
 	if (c08) {
 		bool same = e.post.planlen == m.len; for (int k = 0; same && k < m.len && k < MAXPLAN; ++k) same = task_eq(e.post.plan[k], m.plan[k]);
 		if (!same) flag(C08, "plan-content-after-call", e, "plan holds %d tasks, expected %d (fired tasks removed, others kept in order)", e.post.planlen, m.len);
-		if (e.post.succ != m.succ) flag(C08, "success-report-lifetime", e, "outstanding success reports %x, expected %x", e.post.succ, m.succ);
+		if (!ghost && e.post.succ != m.succ) flag(C08, "success-report-lifetime", e, "outstanding success reports %x, expected %x", e.post.succ, m.succ);
 		if (P.processing && !P.structErr && P.nr > 0 && nF) { // the request the guards evaluate is the last fired one unless replaced later
 			bool replaced = false; for (int i = 0; i < e.nev; ++i) if (e.tr[i].kind == EV_CHANGE && (e.tr[i].meth == M_PLAN_OK || e.tr[i].meth == M_PLAN_FAIL)) replaced = true;
 			const TxS& last = F[nF - 1];
@@ -222,8 +233,8 @@ inline void m_plans(const Edge& e, const Parsed& P, unsigned props) {
 	if (c09) {
 		if (VX_HEAD && cycle && expectOutcome && !outcomeSeen) flag(C09, "warranted-outcome-missing", e, "%s was warranted and not delivered", METH_NAME[expectOutcome]);
 		if (VX_HEAD && cycle && activeFailedThisCycle && planNonEmptyAtStep && !(outcomeSeen && expectOutcome == M_PLAN_FAIL)) flag(C09, "failure-not-reported", e, "active state failed with a non-empty plan, planFailed not delivered in this cycle");
-		if ((e.post.exists != 0) != m.exists) flag(C09, "plan-existence", e, "machine believes a plan %s; a task %s added since activation (raw flag 0x%02x)", e.post.exists ? "exists" : "does not exist", m.exists ? "was" : "was never", e.post.exists);
-		if (e.post.fail != m.fail) flag(C09, "failure-report-lifetime", e, "outstanding failure reports %x, expected %x", e.post.fail, m.fail);
+		if (!ghost && (e.post.exists != 0) != m.exists) flag(C09, "plan-existence", e, "machine believes a plan %s; a task %s added since activation (raw flag 0x%02x)", e.post.exists ? "exists" : "does not exist", m.exists ? "was" : "was never", e.post.exists);
+		if (!ghost && e.post.fail != m.fail) flag(C09, "failure-report-lifetime", e, "outstanding failure reports %x, expected %x", e.post.fail, m.fail);
 		if (checkEmptyAfterOutcome && e.post.planlen) flag(C09, "plan-not-empty-after-outcome", e, "%d tasks after the outcome callback returned", e.post.planlen);
 	}
 }
